@@ -80,6 +80,7 @@ theorem C11_read_fresh_at (s : Db V P) (op : Op11 V P) (hp : s.CacheOk) :
   | setGetter o b => rfl
   | setAvailable a b => rfl
   | setPrimary a t => rfl
+  | addLinked a sv o => rfl
 
 /-- **Every read in every history is fresh.** Split any history at any operation: what that
     operation answers (GET /accessories document, GET /characteristics response) is what a
@@ -259,6 +260,22 @@ example :
          .db (.setValue 3 (some 9))]).renderCached true (fun _ => none)).1.map
       (fun l => l.map (fun a => a.services.map (fun sv => sv.chars.map (fun c => (c.iid, c.value))))))
       = some [[[(some 2, some 0)], [(some 5, some 9)]]] := by
+  decide
+
+/-- linked services: after the information-less demo accessory got a second service (objects 2, 3)
+    and the first was linked to it twice, the first service lists `linked = [3]` once; after the
+    second service was taken out of the manager and assigned again the member shows its new iid -/
+def outletDef : SvcDef Nat Bool :=
+  { typ := "49", chars := [{ typ := "25", props := true, name := none, value := 1, alwaysNull := false }] }
+
+def linkedDemo : Db Nat Bool :=
+  demoDb.runU [.con (.addService 1 outletDef), .db (.addLinked 1 0 2), .db (.addLinked 1 0 2)]
+
+example :
+    ((linkedDemo.renderCached false (fun _ => none)).1.map (fun l => l.map (fun a => a.services.map (·.linked))),
+     ((linkedDemo.runU [.con (.removeObj 1 2), .con (.assign 1 2)]).renderCached false (fun _ => none)).1.map
+        (fun l => l.map (fun a => a.services.map (·.linked))))
+      = (some [[[some 3], []]], some [[[some 5], []]]) := by
   decide
 
 /-- the read specification on the demo database: the characteristic, an unknown iid, the service -/
